@@ -57,6 +57,14 @@ def one_case(case):
         # the two modes did not consume the same draws: not comparable
         info["status"] = "draws-differ"
         return [], info
+    try:
+        nchg = sum(len(rf.value.node_history(x)[0]) for x in labels)
+    except Exception:
+        nchg = 0
+    if nchg > 3000:
+        # the history oracles are quadratic in the number of changes: very long runs are not judged here
+        info["status"] = "too-long"
+        return [], info
     rng = random.Random(case["seam"]["seed"])
     v = [V(cls, "%s/%s" % (case["sim"], suffix), msg, case)
          for cls, suffix, msg in history.two_views(case, ra.value, rf.value, labels, rng)]
